@@ -6,6 +6,7 @@ package main
 
 import (
 	"encoding/hex"
+	"errors"
 	"fmt"
 	"os"
 	"sort"
@@ -31,7 +32,7 @@ type scen struct {
 	Mode   string `json:"mode"` // full | dev<k>
 }
 
-var ids = []party.ID{"a", "b", "c", "d"}
+var ids = []party.ID{"a", "b", "c", "d", "e"}
 
 func resultKey(r interface{}) string {
 	switch x := r.(type) {
@@ -250,7 +251,7 @@ func scenarios() []scen {
 	if vkit.Thorough() {
 		add("vproto:BXPB", 3, 1, 1, "full")
 		add("vproto:XB", 4, 0, 0, "full")
-		add("vproto:BX", 5, 0, 0, "full")
+		add("vproto:BX", 5, 0, 0, "dev2") // the full space of five parties does not fit in memory
 		add("frost-keygen", 3, 1, 1, "full")
 		add("frost-keygen-taproot", 3, 1, 0, "full")
 		add("frost-keygen", 4, 0, 0, "full")
@@ -310,6 +311,12 @@ func main() {
 		}
 		ns, ref, refSent, err := buildScenario(sc)
 		if err != nil {
+			var pe *prereqError
+			if errors.As(err, &pe) {
+				res.Exhaustive = false
+				res.Note(fmt.Sprintf("scenario %s not explored: %v", sc.Name, err))
+				continue
+			}
 			res.Violate("in-order-run-fails|"+sc.Proto, err.Error(), map[string]interface{}{"scen": sc, "history": []string{}})
 			continue
 		}
@@ -318,7 +325,7 @@ func main() {
 		deadline := vkit.Deadline(90*time.Second, 25*time.Minute)
 		bound := "all schedules"
 		if full {
-			st = ns.Search(ck, 0, deadline)
+			st = ns.Search(ck, 3000000, deadline) // state cap: a search that outgrows memory would kill the process; below the cap it is complete
 		} else {
 			var k int
 			fmt.Sscanf(sc.Mode, "dev%d", &k)
